@@ -1,8 +1,159 @@
-import DendroModel.Basic.Tree
-open DendroModel
+import DendroModel.Model.C19
+open DendroModel DendroModel.C19
+
+/-! line protocol of `drv_c19`.
+matrix  := ns ntaxa t_1 … t_ntaxa label nrows { taxon ncells c_1 … } nsubs { label k i_1 … i_k }
+           (label: hex6, `-` = None, `=` = empty; rows in dict insertion order)
+ops     := concat n M_1 … M_n | export_idx M k i_1 … i_k | export_sub M label
+         | fill M value size|N append | fill_taxa M | pack M value size|N append
+         | add|replace|update|extend|extend_new|extend_matrix M O
+         | remove|discard|keep M k t_1 … t_k
+answers := `ok [size] R taxon=c.c.c … S label=i.i …` (rows sorted by taxon) | `ValueError` | `KeyError [R … S …]` | `IndexError` -/
+
+abbrev P := StateT (List String) Option
+
+def tok : P String := fun s =>
+  match s with
+  | [] => none
+  | x :: r => some (x, r)
+
+def pNat : P Nat := do
+  let t ← tok
+  match t.toNat? with
+  | some n => pure n
+  | none => failure
+
+def pInt : P Int := do
+  let t ← tok
+  match t.toInt? with
+  | some n => pure n
+  | none => failure
+
+def pMany {α} (p : P α) : Nat → P (List α)
+  | 0 => pure []
+  | n + 1 => do
+    let a ← p
+    let r ← pMany p n
+    pure (a :: r)
+
+def pCounted {α} (p : P α) : P (List α) := do
+  let n ← pNat
+  pMany p n
+
+def pLabel : P (Option Label) := do
+  let t ← tok
+  match decodeStr t with
+  | some o => pure (o.map String.toList)
+  | none => failure
+
+def pSomeLabel : P Label := do
+  match ← pLabel with
+  | some l => pure l
+  | none => failure
+
+def pMatrix : P Matrix := do
+  let ns ← pNat
+  let taxa ← pCounted pNat
+  let label ← pLabel
+  let rows ← pCounted (do
+    let t ← pNat
+    let cells ← pCounted pNat
+    pure (t, cells))
+  let subs ← pCounted (do
+    let l ← pSomeLabel
+    let idx ← pCounted pNat
+    pure (l, idx))
+  pure { ns, taxa, label, rows, subs }
+
+def pSize : P (Option Nat) := do
+  let t ← tok
+  if t == "N" then pure none else
+    match t.toNat? with
+    | some n => pure (some n)
+    | none => failure
+
+def pBool : P Bool := do
+  let t ← tok
+  if t == "1" then pure true else if t == "0" then pure false else failure
+
+def insRow (kv : Taxon × Row) : Rows → Rows
+  | [] => [kv]
+  | x :: xs => if kv.1 ≤ x.1 then kv :: x :: xs else x :: insRow kv xs
+
+def dots (l : List Nat) : String := ".".intercalate (l.map toString)
+
+def showState (rows : Rows) (subs : List (Label × List Nat)) : String :=
+  " ".intercalate (["R"] ++ (rows.foldr insRow []).map (fun kv => s!"{kv.1}={dots kv.2}") ++ ["S"]
+    ++ subs.map (fun s => encodeStr (some (String.ofList s.1)) ++ "=" ++ dots s.2))
+
+def showErr : Err → String
+  | .valueError => "ValueError"
+  | .keyError => "KeyError"
+  | .indexError => "IndexError"
+
+def showRes : Except Err Matrix → String
+  | .ok m => "ok " ++ showState m.rows m.subs
+  | .error e => showErr e
+
+/-- run a parser on the whole argument list; leftovers are an error -/
+def whole {α} (p : P α) (ws : List String) : Option α :=
+  match p ws with
+  | some (a, []) => some a
+  | _ => none
 
 def handle (ws : List String) : String :=
   match ws with
-  | _ => "bad-op"
+  | "concat" :: rest =>
+    match whole (pCounted pMatrix) rest with
+    | some ms => showRes (concatenate ms)
+    | none => "bad-op"
+  | "export_idx" :: rest =>
+    match whole (do let m ← pMatrix; let idx ← pCounted pInt; pure (m, idx)) rest with
+    | some (m, idx) => showRes (.ok (exportIdx m idx))
+    | none => "bad-op"
+  | "export_sub" :: rest =>
+    match whole (do let m ← pMatrix; let l ← pSomeLabel; pure (m, l)) rest with
+    | some (m, l) => showRes (exportSub m l)
+    | none => "bad-op"
+  | "fill" :: rest =>
+    match whole (do let m ← pMatrix; let v ← pNat; let s ← pSize; let a ← pBool; pure (m, v, s, a)) rest with
+    | some (m, v, s, a) =>
+      s!"ok {fillSize s m.taxa m.rows} " ++ showState (fillRows v s a m.taxa m.rows) m.subs
+    | none => "bad-op"
+  | "fill_taxa" :: rest =>
+    match whole pMatrix rest with
+    | some m => "ok " ++ showState (fillTaxa m.taxa m.rows) m.subs
+    | none => "bad-op"
+  | "pack" :: rest =>
+    match whole (do let m ← pMatrix; let v ← pNat; let s ← pSize; let a ← pBool; pure (m, v, s, a)) rest with
+    | some (m, v, s, a) => "ok " ++ showState (packRows v s a m.taxa m.rows) m.subs
+    | none => "bad-op"
+  | [] => "bad-op"
+  | op :: rest =>
+    if op == "remove" || op == "discard" || op == "keep" then
+      match whole (do let m ← pMatrix; let ts ← pCounted pNat; pure (m, ts)) rest with
+      | some (m, ts) =>
+        if op == "remove" then
+          match removeSeqs ts m.rows with
+          | (rs, none) => "ok " ++ showState rs m.subs
+          | (rs, some e) => showErr e ++ " " ++ showState rs m.subs
+        else if op == "discard" then "ok " ++ showState (discardSeqs ts m.rows) m.subs
+        else "ok " ++ showState (keepSeqs ts m.rows) m.subs
+      | none => "bad-op"
+    else
+      let f : Option (Rows → Rows → Rows) :=
+        if op == "add" then some addSeqs
+        else if op == "replace" then some replaceSeqs
+        else if op == "update" then some updateSeqs
+        else if op == "extend" then some (extendSeqs false)
+        else if op == "extend_new" then some (extendSeqs true)
+        else if op == "extend_matrix" then some extendMatrix
+        else none
+      match f with
+      | none => "bad-op"
+      | some f =>
+        match whole (do let m ← pMatrix; let o ← pMatrix; pure (m, o)) rest with
+        | some (m, o) => showRes (rowOp f m o)
+        | none => "bad-op"
 
 def main : IO Unit := do driverLoop (← IO.getStdin) handle
